@@ -145,68 +145,68 @@ package node
 // containsCall is defined by one equation per node type ("a Call occurs in the node, outside function
 // literals"); every implementation is proved to compute it.
 //@ ghost containsCall(n HasCaller) bool
-//@ type HasCaller.HasCall [C05,C12,C01,C11] pure
+//@ type HasCaller.HasCall [C05,C12,C01,C11,C10] pure
 //@   params self
 //@   ensures[exact] result == containsCall(self)
-//@ func (Call).HasCall [C12,C01,C11] implements HasCaller.HasCall
+//@ func (Call).HasCall [C12,C01,C11,C10] implements HasCaller.HasCall
 //@   assumes[def] containsCall(self) == (true)
-//@ func (Function).HasCall [C12,C01,C11] implements HasCaller.HasCall
+//@ func (Function).HasCall [C12,C01,C11,C10] implements HasCaller.HasCall
 //@   assumes[def] containsCall(self) == (false)
-//@ func (Int).HasCall [C12,C01,C11] implements HasCaller.HasCall
+//@ func (Int).HasCall [C12,C01,C11,C10] implements HasCaller.HasCall
 //@   assumes[def] containsCall(self) == (false)
-//@ func (Float).HasCall [C12,C01,C11] implements HasCaller.HasCall
+//@ func (Float).HasCall [C12,C01,C11,C10] implements HasCaller.HasCall
 //@   assumes[def] containsCall(self) == (false)
-//@ func (String).HasCall [C12,C01,C11] implements HasCaller.HasCall
+//@ func (String).HasCall [C12,C01,C11,C10] implements HasCaller.HasCall
 //@   assumes[def] containsCall(self) == (false)
-//@ func (Bool).HasCall [C12,C01,C11] implements HasCaller.HasCall
+//@ func (Bool).HasCall [C12,C01,C11,C10] implements HasCaller.HasCall
 //@   assumes[def] containsCall(self) == (false)
-//@ func (BinOp).HasCall [C12,C01,C11] implements HasCaller.HasCall
+//@ func (BinOp).HasCall [C12,C01,C11,C10] implements HasCaller.HasCall
 //@   assumes[def] containsCall(self) == (containsCall(b.Left) || containsCall(b.Right))
-//@ func (Assign).HasCall [C12,C01,C11] implements HasCaller.HasCall
+//@ func (Assign).HasCall [C12,C01,C11,C10] implements HasCaller.HasCall
 //@   assumes[def] containsCall(self) == (containsCall(a.Value))
-//@ func (UnOp).HasCall [C12,C01,C11] implements HasCaller.HasCall
+//@ func (UnOp).HasCall [C12,C01,C11,C10] implements HasCaller.HasCall
 //@   assumes[def] containsCall(self) == (containsCall(u.Target))
-//@ func (IndexAt).HasCall [C12,C01,C11] implements HasCaller.HasCall
+//@ func (IndexAt).HasCall [C12,C01,C11,C10] implements HasCaller.HasCall
 //@   assumes[def] containsCall(self) == (containsCall(u.Ary) || containsCall(u.At))
-//@ func (IndexFromTo).HasCall [C12,C01,C11] implements HasCaller.HasCall
+//@ func (IndexFromTo).HasCall [C12,C01,C11,C10] implements HasCaller.HasCall
 //@   assumes[def] containsCall(self) == (containsCall(u.Ary) || containsCall(u.From) || containsCall(u.To))
-//@ func (If).HasCall [C12,C01,C11] implements HasCaller.HasCall
+//@ func (If).HasCall [C12,C01,C11,C10] implements HasCaller.HasCall
 //@   assumes[def] containsCall(self) == (containsCall(i.Condition) || containsCall(i.TrueCase))
-//@ func (IfElse).HasCall [C12,C01,C11] implements HasCaller.HasCall
+//@ func (IfElse).HasCall [C12,C01,C11,C10] implements HasCaller.HasCall
 //@   assumes[def] containsCall(self) == (containsCall(i.Condition) || containsCall(i.TrueCase) || containsCall(i.FalseCase))
-//@ func (While).HasCall [C12,C01,C11] implements HasCaller.HasCall
+//@ func (While).HasCall [C12,C01,C11,C10] implements HasCaller.HasCall
 //@   assumes[def] containsCall(self) == (containsCall(w.Condition) || containsCall(w.Body))
-//@ func (For).HasCall [C12,C01,C11] implements HasCaller.HasCall
+//@ func (For).HasCall [C12,C01,C11,C10] implements HasCaller.HasCall
 //@   assumes[def] containsCall(self) == (containsCall(f.Iterators) || containsCall(f.Body))
-//@ func (Return).HasCall [C12,C01,C11] implements HasCaller.HasCall
+//@ func (Return).HasCall [C12,C01,C11,C10] implements HasCaller.HasCall
 //@   assumes[def] containsCall(self) == (containsCall(r.Target))
-//@ func (Yield).HasCall [C12,C01,C11] implements HasCaller.HasCall
+//@ func (Yield).HasCall [C12,C01,C11,C10] implements HasCaller.HasCall
 //@   assumes[def] containsCall(self) == (containsCall(y.Target))
-//@ func (Read).HasCall [C12,C01,C11] implements HasCaller.HasCall
+//@ func (Read).HasCall [C12,C01,C11,C10] implements HasCaller.HasCall
 //@   assumes[def] containsCall(self) == (false)
-//@ func (Name).HasCall [C12,C01,C11] implements HasCaller.HasCall
+//@ func (Name).HasCall [C12,C01,C11,C10] implements HasCaller.HasCall
 //@   assumes[def] containsCall(self) == (false)
-//@ func (Local).HasCall [C12,C01,C11] implements HasCaller.HasCall
+//@ func (Local).HasCall [C12,C01,C11,C10] implements HasCaller.HasCall
 //@   assumes[def] containsCall(self) == (false)
-//@ func (Closure).HasCall [C12,C01,C11] implements HasCaller.HasCall
+//@ func (Closure).HasCall [C12,C01,C11,C10] implements HasCaller.HasCall
 //@   assumes[def] containsCall(self) == (false)
-//@ func (Write).HasCall [C12,C01,C11] implements HasCaller.HasCall
+//@ func (Write).HasCall [C12,C01,C11,C10] implements HasCaller.HasCall
 //@   assumes[def] containsCall(self) == containsCall(w.Value)
 //@   assumes[builtin_shape] !containsCall(w.Value)   // these nodes exist only in builtin bodies, applied to a parameter
-//@ func (Aton).HasCall [C12,C01,C11] implements HasCaller.HasCall
+//@ func (Aton).HasCall [C12,C01,C11,C10] implements HasCaller.HasCall
 //@   assumes[def] containsCall(self) == containsCall(a.Value)
 //@   assumes[builtin_shape] !containsCall(a.Value)   // these nodes exist only in builtin bodies, applied to a parameter
-//@ func (Toa).HasCall [C12,C01,C11] implements HasCaller.HasCall
+//@ func (Toa).HasCall [C12,C01,C11,C10] implements HasCaller.HasCall
 //@   assumes[def] containsCall(self) == containsCall(t.Value)
 //@   assumes[builtin_shape] !containsCall(t.Value)   // these nodes exist only in builtin bodies, applied to a parameter
-//@ func (Exit).HasCall [C12,C01,C11] implements HasCaller.HasCall
+//@ func (Exit).HasCall [C12,C01,C11,C10] implements HasCaller.HasCall
 //@   assumes[def] containsCall(self) == containsCall(e.Value)
 //@   assumes[builtin_shape] !containsCall(e.Value)   // these nodes exist only in builtin bodies, applied to a parameter
-//@ func (List).HasCall [C12,C01,C11] implements HasCaller.HasCall
+//@ func (List).HasCall [C12,C01,C11,C10] implements HasCaller.HasCall
 //@   assumes[def] (forall k :: 0 <= k && k < len(l.Elems) && containsCall(l.Elems[k]) ==> containsCall(self))
 //@       && ((forall k :: 0 <= k && k < len(l.Elems) ==> !containsCall(l.Elems[k])) ==> !containsCall(self))
 //@   loop 0 invariant -1 <= rangeindex && rangeindex < len(l.Elems) && (forall k :: 0 <= k && k <= rangeindex ==> !containsCall(l.Elems[k]))
-//@ func (Block).HasCall [C12,C01,C11] implements HasCaller.HasCall
+//@ func (Block).HasCall [C12,C01,C11,C10] implements HasCaller.HasCall
 //@   assumes[def] (forall k :: 0 <= k && k < len(b.Body) && containsCall(b.Body[k]) ==> containsCall(self))
 //@       && ((forall k :: 0 <= k && k < len(b.Body) ==> !containsCall(b.Body[k])) ==> !containsCall(self))
 //@   loop 0 invariant -1 <= rangeindex && rangeindex < len(b.Body) && (forall k :: 0 <= k && k <= rangeindex ==> !containsCall(b.Body[k]))
@@ -231,8 +231,8 @@ package node
 //@   assumes[unfold] isNamer(c.Name) && wfAST(c.Name) && (forall k :: 0 <= k && k < len(c.Arguments.Elems) ==> exprOK(c.Arguments.Elems[k]))
 //@   loop 0 invariant[args] -1 <= rangeindex && emitInv(cr)
 //@ pred isIntOne(n Type) bool := dyntype(n) == typeid[Int]() && n.(Int) == 1
-//@ func (Assign).byteCode [C05,C12] implements ByteCoder.byteCode
-//@   atcall bytecode.New(bytecode.INC) with (callee_op bytecode.OpCode) requires[inc_only_for_self_plus_one;C12,C01] dyntype(a.Value) == typeid[BinOp]() && a.Value.(BinOp).Op == "+"
+//@ func (Assign).byteCode [C05,C12,C04] implements ByteCoder.byteCode
+//@   atcall bytecode.New(bytecode.INC) with (callee_op bytecode.OpCode) requires[inc_only_for_self_plus_one;C12,C01,C04] dyntype(a.Value) == typeid[BinOp]() && a.Value.(BinOp).Op == "+"
 //@       && ((isIntOne(a.Value.(BinOp).Right) && a.Value.(BinOp).Left == a.VarRef) || (isIntOne(a.Value.(BinOp).Left) && a.Value.(BinOp).Right == a.VarRef))   // `x = x + 1` and `x = 1 + x` only: the increment instruction adds one to its own operand
 //@   assumes[unfold] exprOK(a.Value) && wfAST(a.VarRef) && (dyntype(a.VarRef) == typeid[Name]() || dyntype(a.VarRef) == typeid[Local]())
 //@ fun isOperatorOpc(op bytecode.OpCode) bool := op == bytecode.ADD || op == bytecode.SUB || op == bytecode.MUL || op == bytecode.DIV || op == bytecode.MOD
@@ -287,7 +287,8 @@ package node
 //@   atcall condition(i.Condition with (callee_falsey bool) requires[true_case_follows_the_test;C12,C01] callee_falsey   // the code right after the jump is the true case: the jump must be the one taken when the condition is false
 //@   assumes[unfold] exprOK(i.Condition) && wfAST(i.TrueCase) && (dyntype(i.Condition) == typeid[UnOp]() ==> exprOK(i.Condition.(UnOp).Target))
 //@   ensures[cond_tested;C12,C09] exists k :: old(len(*cr.CS)) <= k && k < len(*cr.CS) && isCondJump((*cr.CS)[k])
-//@ func (IfElse).byteCode [C05,C12] implements ByteCoder.byteCode
+//@ func (IfElse).byteCode [C05,C12,C09] implements ByteCoder.byteCode
+//@   atcall bytecode.EncodeSrc(srcsel, bytecode.AddrInv, 0) #2 with (callee_src uint64) requires[no_value_only_if_neither_branch_has_one;C09,C12] tCase.Src0() == bytecode.AddrInv && fCase.Src0() == bytecode.AddrInv   // C09: a branch value that was pushed is reported to the enclosing statement (which then pops or uses it)
 //@   atcall condition(i.Condition with (callee_falsey bool) requires[true_case_follows_the_test;C12,C01] callee_falsey   // the code right after the jump is the true case: the jump must be the one taken when the condition is false
 //@   assumes[unfold] exprOK(i.Condition) && wfAST(i.TrueCase) && wfAST(i.FalseCase) && (dyntype(i.Condition) == typeid[UnOp]() ==> exprOK(i.Condition.(UnOp).Target))
 //@   ensures[cond_tested;C12,C09] exists k :: old(len(*cr.CS)) <= k && k < len(*cr.CS) && isCondJump((*cr.CS)[k])
@@ -296,6 +297,7 @@ package node
 // sees all of them (CtxLo..CtxHi) so that a return inside nested loops can delete every one.
 //@ pred varRefOK(n ByteCoder) bool := wfAST(n) && (dyntype(n) == typeid[Name]() || dyntype(n) == typeid[Local]())
 //@ func (For).byteCode [C05,C12,C09,C02,C17] implements ByteCoder.byteCode
+//@   atcall bytecode.EncodeSrc(1, bytecode.AddrImm, ctxID + with (callee_srcAddr int) requires[exhausted_iterator_destroys_all_contexts_of_the_loop;C09,C02] callee_srcAddr == ctxID + len(f.Iterators.Elems) - 1   // C09/C02: whichever iterator runs dry first, every context of this loop is destroyed
 //@   atcall bytecode.EncodeSrc(0, bytecode.AddrImm, switchAddr with (callee_srcAddr int) requires[iteration_leaves_one_value_or_none;C09,C02]
 //@       ((discard && body.Src0() == bytecode.AddrStck) ==> bcop((*cr.CS)[len(*cr.CS)-1]) == bytecode.POP)
 //@       && ((!discard && body.Src0() != bytecode.AddrStck && body.Src0() != bytecode.AddrInv) ==> bcop((*cr.CS)[len(*cr.CS)-1]) == bytecode.PUSH)   // C09: the loop's working storage does not grow with the iteration count
@@ -368,11 +370,11 @@ package node
 // A variable read resolves to the function's own slot, else to the slot of the immediately enclosing
 // function (captured by the closure), else it stays a global name. Only these two scopes are consulted:
 // only the immediately enclosing frame is captured at run time.
-//@ func (Name).STRewrite [C04]
+//@ func (Name).STRewrite [C04,C19]
 //@   checks index nil [C04]
-//@   ensures[own;C04] len(symTbl) >= 1 && mapdom(symTbl[len(symTbl)-1], string(n)) ==>
+//@   ensures[own;C04,C19] len(symTbl) >= 1 && mapdom(symTbl[len(symTbl)-1], string(n)) ==>
 //@       dyntype(result) == typeid[Local]() && result.(Local).Ix == symTbl[len(symTbl)-1][string(n)] && result.(Local).VarName == string(n)
-//@   ensures[captured;C04] len(symTbl) >= 2 && !mapdom(symTbl[len(symTbl)-1], string(n)) && mapdom(symTbl[len(symTbl)-2], string(n)) ==>
+//@   ensures[captured;C04,C19] len(symTbl) >= 2 && !mapdom(symTbl[len(symTbl)-1], string(n)) && mapdom(symTbl[len(symTbl)-2], string(n)) ==>
 //@       dyntype(result) == typeid[Closure]() && result.(Closure).Ix == symTbl[len(symTbl)-2][string(n)] && result.(Closure).VarName == string(n)
 //@   ensures[global;C04] (len(symTbl) < 1 || !mapdom(symTbl[len(symTbl)-1], string(n))) && (len(symTbl) < 2 || !mapdom(symTbl[len(symTbl)-2], string(n))) ==>
 //@       dyntype(result) == typeid[Name]() && result.(Name) == n
@@ -394,11 +396,16 @@ package node
 //@   params self, symTbl
 //@   allocates
 //@   ensures[resolved] rewritten(result)
+// Assumed of the parser (the scanner's spans are proved inside the input, C14; their propagation
+// through combinator.Error values is not): a reported error carries a span inside the input.
 //@ type Parser.Parse [C16] trusted pure
 //@   params self, input
+//@   ensures[span_inside_input] result1 != nil ==> 0 <= result1.From() && result1.From() <= result1.To() && result1.To() <= len(input)
 //@ func Graphviz [C16] trusted pure
-//@ func processInput [C16,C04]
+//@ func processInput [C16,C04,C08]
 //@   checks
+//@   atcall ByteCode(e with (callee_bc ByteCoder) requires[nothing_compiled_after_a_parse_error;C08,C06] err == nil   // C08/C06: when an error is reported none of that input is executed
+//@   atcall ByteCodeNoStck(e with (callee_bc ByteCoder) requires[nothing_compiled_after_a_parse_error;C08,C06] err == nil
 //@   modifies *
 //@   loop 0 invariant true
 //
